@@ -2,6 +2,7 @@ SPECIFICATION TSpec
 CONSTANTS
   REQ <- TraceREQ
   T = 100
+  MaxId = 4
   ACCEPT <- TraceNat
   DELAY <- TraceNat
   EX = 0
